@@ -1,4 +1,6 @@
 import Mps.Judge
+import MpsProps.C08alg
+import MpsProps.AlgGen
 /-
   C08 — property theorems: the algebra layer (MpsProps/C08alg.lean) is imported here once merged.
 -/
